@@ -75,10 +75,38 @@ def substituted(prefix="OpenPinch", extra_builtins=()):
             if bname not in g:
                 saved.append((g, bname, missing))
                 g[bname] = shim
+    _SUBST_STACK.append((saved, missing))
     try:
         yield
     finally:
+        _SUBST_STACK.pop()
         for g, k, v in reversed(saved):
+            if v is missing:
+                g.pop(k, None)
+            else:
+                g[k] = v
+
+
+_SUBST_STACK = []
+
+
+@contextlib.contextmanager
+def native():
+    """Inside a symbolic run: execute a block on the real numpy / math (for wholly concrete sub-computations)."""
+    if not _SUBST_STACK:
+        yield
+        return
+    saved, missing = _SUBST_STACK[-1]
+    current = [(g, k, g.get(k, missing)) for g, k, _ in saved]
+    for g, k, v in saved:
+        if v is missing:
+            g.pop(k, None)
+        else:
+            g[k] = v
+    try:
+        yield
+    finally:
+        for g, k, v in current:
             if v is missing:
                 g.pop(k, None)
             else:
